@@ -347,6 +347,7 @@ namespace via
       Container data_ {};           ///< the data contained in the chunk
       MessageHeaders trailers_ {}; ///< the HTTP field headers for the last chunk
       bool valid_ { false };        ///< true if the chunk is valid
+      bool data_cr_ { false };      ///< the CR after the chunk data has been read
 
     public:
 
@@ -368,6 +369,7 @@ namespace via
         data_.clear();
         trailers_.clear();
         valid_ =  false;
+        data_cr_ = false;
       }
 
       /// swap member variables with another rx_chunk.
@@ -378,6 +380,7 @@ namespace via
         data_.swap(other.data_);
         trailers_.swap(other.trailers_);
         std::swap(valid_, other.valid_);
+        std::swap(data_cr_, other.data_cr_);
       }
 
       /// Parse an HTTP chunk.
@@ -418,11 +421,15 @@ namespace via
             }
 
             // Chunk should end in CRLF
-            if ('\r' == *iter)
+            // Note: the CR may have been read at the end of the previous buffer
+            if (!data_cr_ && ('\r' == *iter))
+            {
+              data_cr_ = true;
               ++iter;
+            }
             else
             { // enforce if strict
-              if (STRICT_CRLF)
+              if (STRICT_CRLF && !data_cr_)
                 return false;
             }
 
